@@ -350,6 +350,13 @@ def evaluate(ctx, r):
     pbt = pb_tol(base["q"])
     for p in phases[1:]:
         cur = r["phase"][p]
+        if job.get("via_recipe"):
+            # the recipe's phase flag changes phase_response and nothing else of the quality spec the library works from
+            ctx.count("recipe_flag_spec_comparisons")
+            diff = [k for k in ("flags", "pb", "sb", "prec") if str(cur["q"].get(k)) != str(base["q"].get(k))]
+            if diff:
+                bad.append(((p,), "spec", "soxr_quality_spec(recipe | phase flag for %s) differs from the linear recipe in more than the phase: %s" % (
+                    p, ", ".join("%s %s vs %s" % (k, cur["q"].get(k), base["q"].get(k)) for k in diff))))
         for s0, s1 in zip(base["sine"], cur["sine"]):
             if "error" in s1 or "error" in s0:
                 bad.append(((p,), "process", "soxr_process failed: %s" % (s1.get("error") or s0.get("error"))))
@@ -429,6 +436,12 @@ def make_jobs(ctx):
         up = float(orr) / float(ir)
         jobs.append({"cfg": c0, "phases": phases, "tones": [0.11, 0.47, 0.93] if up < 40 or not ctx.quick else [0.47],
                      "proto_cap": (4 if up > 20 else 16) if ctx.quick else (40 if up > 20 else 160)})
+    # the corners of (precision, phase): the highest precisions the library accepts (32 by recipe, 33 by field) and the lowest, at minimum
+    # / maximum phase and two intermediate settings - where the cepstral reconstruction of lsx_fir_to_phase has the least room
+    for i, (ir, orr) in enumerate([(1, 4), (1, 16), (2, 1), (1, 2), (3, 1), (1, 8)][: (3 if ctx.quick else 6)]):
+        for prec in ((33,) if ctx.quick else (33, 32, 31.5, 15)):
+            c0 = P.mkcfg(float(ir), float(orr), 7, 0, rng.below(2), prec=prec)
+            jobs.append({"cfg": c0, "phases": [50, 0, 100, 25, 75], "tones": [0.47], "proto_cap": 16 if ctx.quick else 64})
     # one linear-phase member of every planner path (plan class of checks/_signal.py cover: which stage kinds with which L / M / interpolation
     # order, incl. the low-quality single-stage shortcut) is measured at phase settings on both sides of linear, mirror pairs included
     from checks import _signal as S
@@ -443,9 +456,11 @@ def make_jobs(ctx):
                      "proto_cap": (4 if up > 20 else 24) if ctx.quick else (40 if up > 20 else 200)})
     # the phase chosen by the RECIPE's flags (soxr_quality_spec(recipe | SOXR_MINIMUM_PHASE ...)), alone and combined with the other recipe
     # flag of the same nibble (SOXR_STEEP_FILTER): same comparisons, with a tone close to the end of the pass-band
-    for i in range(6 if ctx.quick else 120):
+    for i in range(10 if ctx.quick else 160):
         ir, orr = rng.choice(BASE_RATIOS[:9]) if rng.chance(.6) else cr.gen_rates(rng, max_up=60.0, max_down=100.0)
-        rec = rng.choice([2, 3, 4, 4, 5, 6]) | (0x40 if rng.chance(.6) else 0)
+        rec = rng.choice([1, 2, 3, 4, 4, 5, 6, 7]) | (0x40 if rng.chance(.6) else 0)
+        if i < 4:       # every roll-off class the recipes set by themselves (LQ / MQ: medium), with a poly-phase stage in the plan
+            (ir, orr), rec = [(44100, 48000), (48000, 44100), (44100, 48000), (3, 2)][i], [2, 1, 1 | 0x40, 2][i]
         c0 = P.mkcfg(float(ir), float(orr), rec, rng.choice([0, 0, 2]), rng.below(2))
         up = float(orr) / float(ir)
         jobs.append({"cfg": c0, "phases": [50, 0, 100, 25], "via_recipe": True, "tones": [0.47, 0.97] if up < 40 else [0.97],
